@@ -277,7 +277,9 @@ class Check:
         return ob
 
     def _sample(self, ob, assumptions, goal, extra=None):
-        if len(self.samples) >= 6:
+        if len(self.samples) >= 8:
+            return
+        if ob.solver in ("syntactic", "trivial") and sum(1 for x in self.samples if x.get("solver") in ("syntactic", "trivial")) >= 2:
             return
         def short(x):
             s = str(x)
@@ -513,7 +515,8 @@ class Check:
             "notes": self.notes,
         }
         ev = {"property_id": self.pid, "tier": self.tier, "seed": self.seed, "level": "other", "coverage": cov,
-              "assumptions": self.assumptions, "wall_s": round(wall, 2), "violations": len(self.violations)}
+              "assumptions": self.assumptions + [f"stub/contract: {x}" for x in self.stubs] + [f"bound: {k} = {v}" for k, v in self.bounds.items()],
+              "wall_s": round(wall, 2), "violations": len(self.violations)}
         os.makedirs(os.path.join(ROOT, "evidence"), exist_ok=True)
         with open(os.path.join(ROOT, "evidence", f"{self.pid}.json"), "w") as f:
             json.dump(ev, f, indent=1, default=str)
